@@ -172,17 +172,19 @@ impl SlotState {
         let v = voter.as_usize();
 
         let (certs_created, mut votor_events, mut blocks_to_repair) = match vote {
+            // NOTE: The vote has to be stored before its stake is counted,
+            // as counting may create certificates from the stored votes,
+            // which then have to include the vote that crossed the threshold.
             Vote::Notar(notar_vote) => {
-                let outputs = self.count_notar_stake(slot, notar_vote.block_hash(), voter_stake);
+                let block_hash = notar_vote.block_hash().clone();
                 self.votes.notar[v] = Some(notar_vote);
-                outputs
+                self.count_notar_stake(slot, &block_hash, voter_stake)
             }
             Vote::NotarFallback(nf_vote) => {
-                let outputs = self.count_notar_fallback_stake(nf_vote.block_hash(), voter_stake);
                 let block_hash = nf_vote.block_hash().clone();
-                let res = self.votes.notar_fallback[v].insert(block_hash, nf_vote);
+                let res = self.votes.notar_fallback[v].insert(block_hash.clone(), nf_vote);
                 assert!(res.is_none());
-                outputs
+                self.count_notar_fallback_stake(&block_hash, voter_stake)
             }
             Vote::Skip(skip_vote) => {
                 self.votes.skip[v] = Some(skip_vote);
